@@ -3,19 +3,22 @@
 
    Models: Device/DLCDAnim.v  - the four __redu_lcd_start_* / __redu_lcd_tick_* helper pairs the emitter
                                 prints (emitter.py 348-664), the per-LCD tick list, and the tick-injection
-                                rule (parser.py 4366-4375 + emitter.py 1528-1563);
+                                rule (parser.py: lcd_tick_names / LCDTick; emitter.py: registration pass of emit());
            Host/LCDAnim.v     - LCD.animate / LCD.tick / _AnimationState (Displays/LCD.py 277-430).
    millis() / now_ms is an explicit argument: the statements quantify over every list of tick times;
    [tick_times_ok] = positive and non-decreasing (the property's quantifier).  Widths: 1 <= cols.
    A "step" is a tick that passed the rate limiter ([dgate]/[hgate] true); [step_times] lists their
    times, [step_count] counts them.
 
-   Guard of the tick-injection statement: lcd.animate calls placed before the main loop.  A call
-   inside `while True:` gets a state variable but no tick call (C18_tick_injected_refuted,
-   finding F-C18-animate-in-loop-never-ticked).
+   Tick injection: no guard.  emit() registers every lcd.animate call site (before the main loop, inside
+   `while True:`, inside function bodies) before it emits the first statement, so the LCDTick at the head
+   of loop() ticks every declared state variable (C18_tick_injected; the former refutations
+   C18_tick_injected_refuted / C18_loop_site_never_ticked were repaired in Reduino: entries
+   F-C18-animate-in-loop-never-ticked / F-C18-animate-in-function-undeclared, kind fixed).
    Device/DLCDInject.v brings the block structure of the script inside the model: call sites sit at any
-   depth inside if/elif/else, while, for and try/except bodies; the parser's name collection and the
-   emitter's registration walk are two independent recursive walks over it (the C18_nested theorems). *)
+   depth inside if/elif/else, while, for and try/except bodies and in function bodies; the parser's name
+   collection and the emitter's registration walk are two independent recursive walks over it (the
+   C18_nested theorems, C18_function_site_ticked). *)
 From Coq Require Import ZArith List Bool.
 From RV Require Import Host.LCDAnim Device.DLCDAnim Proofs.LCDAnimP Proofs.LCDAnimP2.
 From RV Require Import Gen.LcdAnimTables Proofs.LCDAnimG Proofs.LCDAnimP3 Proofs.LCDAnimP4.
@@ -131,32 +134,41 @@ Theorem C18_tick_each_once :
 Proof. exact dtick_all_once. Qed.
 Print Assumptions C18_tick_each_once.
 
-(* full strength "every declared animation state variable is ticked at the head of loop()": false *)
-Theorem C18_tick_injected_refuted :
-  exists (setup loop : list site) (v : Z * Z * style),
-    In v (all_vars setup loop) /\ ~ In v (loop_ticks setup loop).
-Proof. exact tick_injected_refuted. Qed.
-Print Assumptions C18_tick_injected_refuted.
+(* "every declared animation state variable is ticked at the head of loop()", whatever the place of the
+   call sites (before the main loop, inside it, in function bodies - [loop] holds the sites registered after
+   the setup part): the tick calls are exactly the declared variables, none twice; the k-th call site of
+   display n is ticked through its own variable with its own style; no tick call without a call site.
+   (Was C18_tick_injected_refuted + C18_tick_injected_partial with the guard loop = [] until the repair
+   recorded as F-C18-animate-in-loop-never-ticked.) *)
+Theorem C18_tick_injected :
+  forall (setup loop : list site),
+  loop_ticks setup loop = all_vars setup loop /\ NoDup (loop_ticks setup loop) /\
+  (forall pre n sty post, setup ++ loop = pre ++ (n, sty) :: post -> In (n, count_name n pre, sty) (loop_ticks setup loop)) /\
+  (forall n k sty, In (n, k, sty) (loop_ticks setup loop) ->
+     exists pre post, setup ++ loop = pre ++ (n, sty) :: post /\ k = count_name n pre).
+Proof. exact tick_injected. Qed.
+Print Assumptions C18_tick_injected.
 
-(* ... for every call site inside the main loop, whatever else the program contains *)
-Theorem C18_loop_site_never_ticked :
+(* ... for every call site inside the main loop, whatever else the program contains: declared and ticked
+   (was C18_loop_site_never_ticked) *)
+Theorem C18_loop_site_ticked :
   forall (setup loop pre : list site) (n : Z) (sty : style) (post : list site),
   loop = pre ++ (n, sty) :: post ->
   In (n, count_name n setup + count_name n pre, sty) (all_vars setup loop) /\
-  forall sty', ~ In (n, count_name n setup + count_name n pre, sty') (loop_ticks setup loop).
-Proof. exact loop_site_never_ticked. Qed.
-Print Assumptions C18_loop_site_never_ticked.
+  In (n, count_name n setup + count_name n pre, sty) (loop_ticks setup loop) /\
+  NoDup (loop_ticks setup loop).
+Proof. exact loop_site_ticked. Qed.
+Print Assumptions C18_loop_site_ticked.
 
-(* guard: no lcd.animate inside the main loop.  Then loop() ticks exactly the declared variables,
-   none twice, and the k-th call site of display n is ticked with its own style *)
-Theorem C18_tick_injected_partial :
-  forall (setup : list site),
-  loop_ticks setup [] = all_vars setup [] /\ NoDup (loop_ticks setup []) /\
-  forall pre n sty post, setup = pre ++ (n, sty) :: post -> In (n, count_name n pre, sty) (loop_ticks setup []).
-Proof. exact tick_injected_partial. Qed.
-Print Assumptions C18_tick_injected_partial.
+(* non-vacuity: the former witness of the refutation - one display, a single lcd.animate("scroll", ...)
+   inside `while True:` - now has its tick *)
+Example C18_ex_loop_site_ticked :
+  loop_ticks [] [(0, Scroll)] = [(0, 0, Scroll)] /\ all_vars [] [(0, Scroll)] = [(0, 0, Scroll)].
+Proof. exact ex_loop_site_ticked. Qed.
+Print Assumptions C18_ex_loop_site_ticked.
 
-(* a call site before the main loop is ticked exactly once per pass even when other sites sit in the loop *)
+(* a call site before the main loop is ticked exactly once per pass, with the index it has among the sites
+   of its display *)
 Theorem C18_setup_site_ticked :
   forall (setup loop pre : list site) (n : Z) (sty : style) (post : list site),
   setup = pre ++ (n, sty) :: post ->
@@ -172,7 +184,7 @@ Print Assumptions C18_setup_site_ticked.
 Theorem C18_nested_walks_refine_flat_rule :
   forall setup loop : list stmt,
   tree_loop_ticks setup loop = loop_ticks (flats setup) (flats loop) /\
-  tree_all_vars setup loop = all_vars (flats setup) (flats loop) /\
+  (forall v, In v (tree_all_vars setup loop) <-> In v (all_vars (flats setup) (flats loop))) /\
   parser_ticks setup loop = sorted_set (map fst (flats setup ++ flats loop)).
 Proof. exact nested_walks_refine. Qed.
 Print Assumptions C18_nested_walks_refine_flat_rule.
@@ -184,21 +196,21 @@ Theorem C18_nested_sites_are_all_occurrences :
 Proof. exact flats_occurs_iff. Qed.
 Print Assumptions C18_nested_sites_are_all_occurrences.
 
-(* every call site before the main loop, however deeply nested and in whatever kind of body (an except
-   handler included), has its own state variable ticked at the head of loop(), and no tick call is
-   emitted twice; other call sites in the main loop do not disturb this *)
+(* every call site, however deeply nested and in whatever kind of body (an except handler included), before
+   the main loop or inside it, has its own state variable ticked at the head of loop(), and no tick call is
+   emitted twice *)
 Theorem C18_nested_site_ticked :
   forall (setup loop : list stmt) (pre : list site) (n : Z) (sty : style) (post : list site),
-  flats setup = pre ++ (n, sty) :: post ->
+  flats setup ++ flats loop = pre ++ (n, sty) :: post ->
   In (n, count_name n pre, sty) (tree_loop_ticks setup loop) /\ NoDup (tree_loop_ticks setup loop).
 Proof. exact tree_site_ticked. Qed.
 Print Assumptions C18_nested_site_ticked.
 
 (* ... stated on occurrences: a display/style pair is ticked iff an lcd.animate of that display with that
-   style occurs somewhere before the main loop *)
+   style occurs somewhere in the script *)
 Theorem C18_nested_occurrence_ticked :
   forall (setup loop : list stmt) (n : Z) (sty : style),
-  occurs (SAnim n sty) setup <-> exists k, In (n, k, sty) (tree_loop_ticks setup loop).
+  occurs (SAnim n sty) setup \/ occurs (SAnim n sty) loop <-> exists k, In (n, k, sty) (tree_loop_ticks setup loop).
 Proof. exact tree_occurrence_ticked_iff. Qed.
 Print Assumptions C18_nested_occurrence_ticked.
 
@@ -206,25 +218,52 @@ Print Assumptions C18_nested_occurrence_ticked.
 Theorem C18_nested_tick_has_site :
   forall (setup loop : list stmt) (n k : Z) (sty : style),
   In (n, k, sty) (tree_loop_ticks setup loop) ->
-  exists pre post, flats setup = pre ++ (n, sty) :: post /\ k = count_name n pre.
+  exists pre post, flats setup ++ flats loop = pre ++ (n, sty) :: post /\ k = count_name n pre.
 Proof. exact tree_tick_has_site. Qed.
 Print Assumptions C18_nested_tick_has_site.
 
-(* guard as before (no lcd.animate inside the main loop): loop() ticks exactly the declared variables *)
-Theorem C18_nested_tick_injected_partial :
-  forall setup : list stmt,
-  tree_loop_ticks setup [] = tree_all_vars setup [] /\ NoDup (tree_loop_ticks setup []).
-Proof. exact tree_injected_partial. Qed.
-Print Assumptions C18_nested_tick_injected_partial.
+(* no guard any more (was C18_nested_tick_injected_partial, for scripts without lcd.animate inside the main
+   loop): the declared globals - one per registry entry - are exactly the variables ticked at the head of
+   loop(), and neither list repeats a variable *)
+Theorem C18_nested_tick_injected :
+  forall setup loop : list stmt,
+  (forall v, In v (tree_all_vars setup loop) <-> In v (tree_loop_ticks setup loop)) /\
+  NoDup (tree_loop_ticks setup loop) /\ NoDup (tree_all_vars setup loop).
+Proof. exact tree_injected. Qed.
+Print Assumptions C18_nested_tick_injected.
 
-(* ... and outside it: a call site anywhere inside the main loop (nested or not) is declared, never ticked *)
-Theorem C18_nested_loop_site_never_ticked :
+(* a call site anywhere inside the main loop (nested or not) is declared and ticked, with the index that
+   continues the count of its display's sites before the loop (was C18_nested_loop_site_never_ticked) *)
+Theorem C18_nested_loop_site_ticked :
   forall (setup loop : list stmt) (pre : list site) (n : Z) (sty : style) (post : list site),
   flats loop = pre ++ (n, sty) :: post ->
   In (n, count_name n (flats setup) + count_name n pre, sty) (tree_all_vars setup loop) /\
-  forall sty', ~ In (n, count_name n (flats setup) + count_name n pre, sty') (tree_loop_ticks setup loop).
-Proof. exact tree_loop_site_never_ticked. Qed.
-Print Assumptions C18_nested_loop_site_never_ticked.
+  In (n, count_name n (flats setup) + count_name n pre, sty) (tree_loop_ticks setup loop) /\
+  NoDup (tree_loop_ticks setup loop).
+Proof. exact tree_loop_site_ticked. Qed.
+Print Assumptions C18_nested_loop_site_ticked.
+
+(* a call site anywhere inside the body of a function (F-C18-animate-in-function-undeclared, repaired): its
+   state variable is a declared global and is ticked at the head of loop() *)
+Theorem C18_function_site_ticked :
+  forall (setup loop : list stmt) (funs : list (list stmt)) (f : list stmt) (n : Z) (sty : style),
+  In f funs -> occurs (SAnim n sty) f ->
+  exists k, In (n, k, sty) (prog_ticks setup loop funs) /\ In (n, k, sty) (prog_vars setup loop funs) /\
+            NoDup (prog_ticks setup loop funs).
+Proof. exact prog_function_site_ticked. Qed.
+Print Assumptions C18_function_site_ticked.
+
+(* non-vacuity: the two former witnesses (a call site inside `while True:` under an if; one inside a function
+   called before the loop), and a program with sites in all three places *)
+Example C18_ex_loop_and_function_sites :
+  tree_loop_ticks [SOther] [SBlock KIf [[SAnim 0 Scroll; SOther]]] = [(0, 0, Scroll)] /\
+  prog_ticks [SOther] [SOther] [[SAnim 0 Scroll]] = [(0, 0, Scroll)] /\
+  prog_vars [SAnim 1 Blink] [SBlock KIf [[SAnim 0 Scroll]]] [[SAnim 0 Bounce]; [SOther; SAnim 1 Scroll]] =
+    [(1, 0, Blink); (0, 0, Scroll); (0, 1, Bounce); (1, 1, Scroll)] /\
+  prog_ticks [SAnim 1 Blink] [SBlock KIf [[SAnim 0 Scroll]]] [[SAnim 0 Bounce]; [SOther; SAnim 1 Scroll]] =
+    [(0, 0, Scroll); (0, 1, Bounce); (1, 0, Blink); (1, 1, Scroll)].
+Proof. exact ex_loop_and_function_sites. Qed.
+Print Assumptions C18_ex_loop_and_function_sites.
 
 (* non-vacuity: display 0 animates in a try body, display 1 only inside a for loop inside the second
    except handler, the whole try inside an if - both are ticked *)
